@@ -25,3 +25,11 @@ Theorem C03_terminates :
   run c (init c e0 st0 clk) sched = Some s -> length sched <= sched_bound c.
 Proof. exact terminates. Qed.
 Print Assumptions C03_terminates.
+
+(* progress + termination: from every reachable state some schedule reaches a terminal state
+   (so complete runs exist for every configuration) *)
+Theorem C03_can_complete :
+  forall c e0 st0 clk s, wf_cfg_or_cyclic c -> junk_free e0 -> reachable c e0 st0 clk s ->
+  exists sched s', run c s sched = Some s' /\ terminal s' = true.
+Proof. exact can_complete. Qed.
+Print Assumptions C03_can_complete.
